@@ -15,6 +15,9 @@ EXPLANATION = (
     "primitive, the byte view only byte primitives, and get() returns Option of the element type list() collects; N3 the "
     "macro-generated numeric to_string and float methods delegate uniformly for every width."
 )
+EXPLANATION += (
+    ' N4 a delegating built-in passes its parameters on in declaration order. N5 out-of-range gives None: in the hand-written index arithmetic of the views every returned Some(..) is dominated by a successful lookup of the start index in the string (gate on a call that consumed string data and the index, a loop that looks one unit up per step, or a comparison with a length) and of every index the returned value depends on.'
+)
 ASSUMPTIONS = [
     "Rust std / inetnum methods implement their documented meaning (trusted); only the binding of names to those methods is decided",
 ]
